@@ -16,19 +16,20 @@ from . import common
 DIR = os.path.join(common.BUILD, "lspx")
 
 
-def text(doc, ver, imports_b=False):
+def text(doc, tid, imports_b=False):
+    """Every text sent is unique (tid = position of the event in the history), independently of its LSP version number."""
     d = doc.lower()
-    head = "from b import helper_b\n\n\n" if imports_b else ""
     # line 0 must be the marker declaration (hover probes line 0), so imports go *after* it for A
-    body = f"def marker_{d}_v{ver}() -> int:\n    return unknown_{d}_v{ver}\n"
+    body = f"def marker_{d}_t{tid}() -> int:\n    return unknown_{d}_t{tid}\n"
     if imports_b:
         return body + "\n\n" + "from b import helper_b\n"
     return body
 
 
 def histories(max_len, docs=("A", "B")):
-    """All protocol-legal event sequences: open before change/close; versions strictly increase per document (also across
-    a close/re-open); at most one trailing state per document."""
+    """All protocol-legal event sequences: open before change/close; versions strictly increase within one open..close
+    session; a re-open either continues the numbering or starts again at 1 (both are legal: LSP orders versions only
+    within a session, and editors restart at 1)."""
     out = []
 
     def rec(seq, state, nextver):
@@ -38,8 +39,9 @@ def histories(max_len, docs=("A", "B")):
             return
         for d in docs:
             if state[d] == "closed":
-                ev = {"op": "open", "doc": d, "ver": nextver[d]}
-                rec(seq + [ev], {**state, d: "open"}, {**nextver, d: nextver[d] + 1})
+                for v in sorted({nextver[d], 1}):
+                    ev = {"op": "open", "doc": d, "ver": v}
+                    rec(seq + [ev], {**state, d: "open"}, {**nextver, d: v + 1})
             else:
                 ev = {"op": "change", "doc": d, "ver": nextver[d]}
                 rec(seq + [ev], state, {**nextver, d: nextver[d] + 1})
@@ -47,7 +49,6 @@ def histories(max_len, docs=("A", "B")):
                 rec(seq + [ev], {**state, d: "closed"}, nextver)
 
     rec([], {d: "closed" for d in docs}, {d: 1 for d in docs})
-    # only histories that end with at least two handlers that can overlap are interesting, but all are explored
     return out
 
 
@@ -55,8 +56,8 @@ def materialise(h, broken_b=False):
     """broken_b: document B's texts do not parse (A's dependency analysis then publishes B's parse errors while holding the
     read guard); B itself is then not judged, A is."""
     evs = []
-    for e in h:
-        t = "" if e["op"] == "close" else text(e["doc"], e["ver"], imports_b=(e["doc"] == "A"))
+    for tid, e in enumerate(h):
+        t = "" if e["op"] == "close" else text(e["doc"], tid, imports_b=(e["doc"] == "A"))
         if broken_b and e["doc"] == "B" and t:
             t = t + "def broken(:\n"
         evs.append({**e, "text": t})
@@ -108,7 +109,11 @@ def run(tier):
     cap = 300_000 if thorough else 60_000
     base = histories(max_len)
     # the same histories with a B whose texts do not parse (only those that touch B and A)
-    hs = list(enumerate([(h, False) for h in base] + [(h, True) for h in base if {e["doc"] for e in h} == {"A", "B"}]))
+    # longer single-document histories (document A, which imports the on-disk b.incn): close / re-open cycles need five or
+    # more events before a stored version can exceed the version of a re-open
+    long_len = 7 if thorough else 5
+    single = [h for h in histories(long_len, docs=("A",)) if len(h) > max_len]
+    hs = list(enumerate([(h, False) for h in base] + [(h, True) for h in base if {e["doc"] for e in h} == {"A", "B"}] + [(h, False) for h in single]))
     n = common.NCPU
     chunks = [hs[i::n] for i in range(n)]
     with Pool(n) as pool:
@@ -142,7 +147,7 @@ def run(tier):
         "samples": samples or [{"history": hs[0][1][0]}],
         "evaluations": execs,
         "distinct_nontrivial": nontriv,
-        "rule": f"all {len(base)} protocol-legal open/change/close histories of length <= {max_len} over documents A (imports B) and B, and again with a B that does not parse ({len(hs)} in total); for each, every schedule of "
+        "rule": f"all {len(base)} protocol-legal open/change/close histories of length <= {max_len} over documents A (imports B) and B (a re-open continues the version numbering or restarts at 1), all {len(single)} histories of length {max_len + 1}..{long_len} on document A alone, and again with a B that does not parse ({len(hs)} in total); for each, every schedule of "
         f"arrive / poll(woken handler) / drain steps with <= {bound} deviations from the eager-client and from the lazy-client default schedule, each run to quiescence on a fresh "
         "real LspService; states = complete executions (each is a distinct schedule), transitions = arrive/poll/drain steps executed; non-trivial = schedules containing at least "
         "one pending poll (a handler actually suspended at an await point)",
